@@ -378,7 +378,15 @@ func (set *Set) add(hosts ...*Host) {
 		}
 		set.all[host.Addr] = host
 	}
-	set.addToHealthy(hosts...)
+	// An address may be given more than once (e.g. as main and as backup),
+	// only the host which ended up as the member is usable.
+	members := make([]*Host, 0, len(hosts))
+	for _, host := range hosts {
+		if set.all[host.Addr] == host {
+			members = append(members, host)
+		}
+	}
+	set.addToHealthy(members...)
 }
 
 // Remove removes host from the set.
